@@ -309,6 +309,10 @@ def clock_scenarios(tier):
         out.append(Scenario(["off", "on"], q, prefix="msoff", clock="ind"))
         out.append(Scenario(["mson"], q, prefix="msoff", clock="ind"))
         out.append(Scenario(["msoff"], q, clock="ind"))
+    # the MS is the (hopping) recipient of the burst the tick forwards while it is switched off: whatever the
+    # race does to the burst, the clock thread must survive and the BTS keep its clock indications
+    out.append(Scenario(["msoff"], "f", prefix="mshop", clock="ind"))
+    out.append(Scenario(["msoff", "mson"], "f", prefix="mshop", clock="ind"))
     return out
 
 
